@@ -170,6 +170,57 @@ def lifted_equals_plain(t, mi, li, sel, a, b, x, n, k0, c0, n0, h0, k1, c1, n1, 
   return C1.plain(mvars) == want
 
 
+def bound_child_sees_lifted_update(t, sel, a, x, via_value):
+  """a child scope bound BEFORE a lifted call on its parent (what a setup()-defined
+  sub-module is) is used plainly, updated inside the lifted call, and used plainly
+  again: it sees the lifted update, exactly as in the un-transformed program"""
+  t = pick(list(range(NT)), t)
+  sel = pick([0, 1, 2], sel)
+  if t < 3 and sel != 0:
+    raise Reject()
+
+  def fn(sc, xx, lifted):
+    kid = sc.push('kid')
+    n = kid.variable('stats', 'n', lambda: 0)
+    n.value = n.value + 1                                   # plain use
+
+    def body(s_, x_):
+      k2 = s_.push('kid', reuse=True)
+      n2 = k2.variable('stats', 'n', lambda: 0)
+      n2.value = n2.value + x_                              # update under the lift
+      return n2.value
+    alt = lambda s_, x_: body(s_, x_ * 2)
+    noop = lambda s_, x_: x_
+    if not lifted:
+      y = (body if sel == 0 else (alt if (sel == 1 or t == 3) else noop))(sc, xx) \
+          if t in (3, 4) else body(sc, xx)
+    elif t == 0:
+      y = L.checkpoint(body, variables=True, rngs=True)(sc, xx)
+    elif t == 1:
+      y = L.jit(lambda s_, key, x_: body(s_, x_), variables=True, rngs=True)(
+          sc, 0, xx)
+    elif t == 2:
+      y = L.map_variables(body, 'stats', map_in_fn=lambda v: v,
+                          map_out_fn=lambda v: v, mutable=True)(sc, xx)
+    elif t == 3:
+      y = L.cond(sel == 0, body, alt, sc, xx, variables=True, rngs=True)
+    else:
+      y = L.switch(sel, [body, alt, noop], sc, xx, variables=True, rngs=True)
+    # plain use again, through the scope / Variable object bound before the lift
+    if via_value:
+      n.value = n.value + 1
+    else:
+      kid.put_variable('stats', 'n', kid.get_variable('stats', 'n') + 1)
+    return y, kid.get_variable('stats', 'n')
+  variables = {'stats': {'kid': {'n': a}}}
+  with LiftEnv():
+    out_l = S.apply(lambda sc, xx: fn(sc, xx, True), mutable=['stats'])(variables, x)
+  out_p = S.apply(lambda sc, xx: fn(sc, xx, False), mutable=['stats'])(variables, x)
+  (yl, nl), ml = out_l
+  (yp, np_), mp = out_p
+  return yl == yp and nl == np_ and C1.plain(ml) == C1.plain(mp)
+
+
 def lifted_while(mi, a, b, init, limit, split):
   """lift.while_loop == the Python loop: carried collection sees every iteration's
   update, broadcast collection is read-only, result is the final carry"""
@@ -248,6 +299,57 @@ def map_variables_init(x, frozen_mapped):
     y1, v1 = S.init(lifted)({'params': C9._KEYS[0]}, x)
   y0, v0 = S.init(body)({'params': C9._KEYS[0]}, x)
   return y1 == y0 and C1.plain(v1) == C1.plain(v0)
+
+
+import flax.linen as nn
+from harness.c02 import RngStub
+
+
+class _Inner(nn.Module):
+  @nn.compact
+  def __call__(self, x):
+    w = self.variable('params', 'w', lambda: 3)
+    c = self.variable('stats', 'count', lambda: 0)
+    if self.is_mutable_collection('stats'):
+      c.value = c.value + 1
+    seen_rng = 1 if self.has_rng('noise') else 0
+    return x * w.value + c.value * 10 + seen_rng * 100
+
+
+class _Outer(nn.Module):
+  rf: int = 0
+  vf: int = 0
+  lifted: bool = True
+
+  @nn.compact
+  def __call__(self, x):
+    if not self.lifted:
+      return _Inner(name='inner')(x)
+    rngs = [True, 'noise', False, ['noise', 'other']][self.rf]
+    variables = [True, ['params', 'stats'], 'stats'][self.vf]
+    M = nn.map_variables(_Inner, 'params', lambda v: v, lambda v: v, mutable=True,
+                         rngs=rngs, variables=variables)
+    return M(name='inner')(x)
+
+
+def linen_map_variables_filters(rf, vf, w, c, x, mutable):
+  """an identity nn.map_variables on a sub-module equals the plain sub-module for
+  every rngs= / variables= lifting filter: lifted rng streams stay visible inside,
+  streams that are not lifted do not, collections are lifted by `variables`"""
+  rf, vf = pick([0, 1, 2, 3], rf), pick([0, 1, 2], vf)
+  vs = {'params': {'inner': {'w': w}}, 'stats': {'inner': {'count': c}}}
+  mut = ['stats'] if mutable else False
+  with LiftEnv(), RngStub():
+    got = _Outer(rf=rf, vf=vf).apply(vs, x, rngs={'noise': C9._KEYS[0]}, mutable=mut)
+  ref = _Outer(lifted=False).apply(vs, x, rngs={'noise': C9._KEYS[0]}, mutable=mut)
+  if mutable:
+    (y, upd), (yr, updr) = got, ref
+  else:
+    y, yr, upd, updr = got, ref, {}, {}
+  # the only permitted difference: an rng stream that was not lifted is not visible
+  sees = rf in (0, 1, 3)
+  want_y = yr if sees else yr - 100
+  return y == want_y and C1.plain(upd) == C1.plain(updr)
 
 
 def dedup_grandchild(depth):
@@ -373,6 +475,16 @@ def obligations(tier):
          dict(x=I(-3, 3), frozen_mapped=B()), timeout=300, funcs=F),
       Ob('lifted_scope_descendant_path', dedup_grandchild, dict(depth=I(1, 3)),
          timeout=120, funcs=F),
+      Ob('linen_map_variables_filters', linen_map_variables_filters,
+         dict(rf=I(0, 3), vf=I(0, 2), w=I(-3, 3), c=I(-3, 3), x=I(-3, 3), mutable=B()),
+         split=('rf',), timeout=300, funcs=F,
+         bounds='nn.map_variables(Module) with rngs in {True, name, False, list} and '
+                'variables in {True, list}'),
+      Ob('bound_child_sees_lifted_update', bound_child_sees_lifted_update,
+         dict(t=I(0, NT - 1), sel=I(0, 2), a=I(-3, 3), x=I(-3, 3), via_value=B()),
+         split=('t',), timeout=300, funcs=F,
+         bounds='5 transforms, a child scope bound before the lifted call, used '
+                'plainly before and after it, updated inside it'),
       Ob('lifted_rng_counters', lifted_rng_counters,
          dict(t=I(0, 2), mi=I(0, nmut), uses=I(1, 3), draws=I(0, 2)),
          split=('t',), timeout=600, funcs=F,
